@@ -270,7 +270,7 @@ theorem step_inv (adm : Job → Path → Prop) (hadm : ∀ j p, adm j p → (cru
     (st st' : State) (evs : List Ev) (h : Step adm st evs st') (s : Chain.S) (hi : CInv st s) :
     ∃ s', runOn Chain.step s evs = .ok s' ∧ CInv st' s' := by
   cases h with
-  | item pre post j rg dn x rest hp hen =>
+  | item pre post j rg dn x rest hp hen hq =>
     have hmemP : (⟨j, rg, dn, true, x :: rest⟩ : Proc) ∈ st.procs := by rw [hp]; simp
     obtain ⟨ph, hP⟩ := hi.procs _ hmemP rfl
     obtain ⟨ph', hph, hrest⟩ := crun_cons_some ph x rest hP.rest
